@@ -472,6 +472,99 @@ fn run_session(seed: u64, n: u64, long: bool, ev: &mut Evidence) {
     }
 }
 
+/// One client loop over several connections in a row (the connection is lost - EOF, read error,
+/// or a reply that never comes and a dropped connection - and a new one is set up): the id keeps
+/// advancing by one per transmitted request across connections - "consecutive requests never share an
+/// id" - whatever ended the previous connection.
+fn run_reconnect_session(seed: u64, n: u64, ev: &mut Evidence) {
+    let mut rng = Rng::sub(seed, 1112, n);
+    let conns = 2 + rng.usize_below(3);
+    // per connection: how many requests are answered before the connection ends, and how it ends
+    let plan: Vec<(usize, u8)> = (0..conns).map(|_| (rng.usize_below(4), (rng.below(3)) as u8)).collect();
+    let plan2 = plan.clone();
+    let result = run_paused(|| async move {
+        let seq = Seq::default();
+        let (channel, mut sim) = rodbus::verif::client(rodbus::verif::Framing::Mbap, 16, decode_level((0, 0, 0)), None);
+        channel.enable().await.unwrap();
+        let mut ids: Vec<Vec<u16>> = vec![];
+        let mut ch = channel;
+        for (answered, ending) in plan2.iter().copied() {
+            let (io, handle) = sim_io(vec![], seq.clone());
+            let seen = Arc::new(Mutex::new((RequestAssembler::new(Framing::Mbap), vec![] as Vec<u16>)));
+            let s2 = seen.clone();
+            handle.set_responder(Box::new(move |bytes, _| {
+                let mut g = s2.lock().unwrap();
+                let frames = g.0.feed(bytes);
+                let mut items = vec![];
+                for f in frames {
+                    if f.len() < 12 {
+                        continue;
+                    }
+                    let tx = ((f[0] as u16) << 8) | f[1] as u16;
+                    g.1.push(tx);
+                    if g.1.len() <= answered {
+                        items.push(In::Chunk(mbap_frame(tx, f[6], &[3, 2, 0, 7])));
+                    } else {
+                        // this request ends the connection
+                        match ending {
+                            0 => items.push(In::Eof),
+                            1 => items.push(In::Err(std::io::ErrorKind::ConnectionReset)),
+                            _ => {
+                                // a frame that breaks the framing (protocol id 1)
+                                items.push(In::Chunk(vec![0, 0, 0, 1, 0, 2, 1, 3]));
+                            }
+                        }
+                    }
+                }
+                items
+            }));
+            let session = tokio::spawn(async move {
+                let end = sim.run_session(Box::new(io)).await;
+                (sim, end)
+            });
+            let start = tokio::time::Instant::now();
+            for _ in 0..(answered + 1) {
+                let slot = Slot::new(start, seq.clone());
+                let req = ClientReq::Read { kind: Kind::ReadHolding, start: 0, count: 1 };
+                let _ = submit(&ch, Style::Future, 1, Duration::from_millis(200), &req, slot.clone()).await;
+                let _ = tokio::time::timeout(Duration::from_secs(5), slot.wait()).await;
+            }
+            let Ok(Ok((s, _end))) = tokio::time::timeout(Duration::from_secs(10), session).await else {
+                return Err("the session did not end after its connection was lost".to_string());
+            };
+            sim = s;
+            ids.push(seen.lock().unwrap().1.clone());
+            let _ = &mut ch;
+        }
+        Ok(ids)
+    });
+    ev.eval();
+    ev.count("reconnect_sessions", 1);
+    let rep = json!({"reconnect": true, "n": n, "plan": plan.iter().map(|(a, e)| format!("{a} answered, then {}", ["eof", "reset", "bad frame"][*e as usize])).collect::<Vec<_>>()});
+    match result {
+        Err(p) => ev.violation(format!("reconnect:panic:{}", crate::util::panic_site(&p)), format!("client panicked: {p}"), rep),
+        Ok(Err(e)) => ev.violation("reconnect:session_did_not_end".to_string(), e, rep),
+        Ok(Ok(ids)) => {
+            let flat: Vec<u16> = ids.iter().flatten().copied().collect();
+            ev.count("requests", flat.len() as u64);
+            ev.count("connections_in_reconnect_sessions", ids.len() as u64);
+            for (c, e) in plan.iter().map(|(_, e)| e).enumerate() {
+                ev.class(format!("reconnect|connection_ended_by={}|position={}", ["eof", "reset", "bad_frame"][*e as usize], c.min(2)));
+            }
+            for w in flat.windows(2) {
+                if w[1] != w[0].wrapping_add(1) {
+                    ev.violation(
+                        format!("reconnect:id_step={}", w[1].wrapping_sub(w[0])),
+                        format!("transaction ids transmitted over {} consecutive connections of one channel: {ids:?} - {} is followed by {}", ids.len(), w[0], w[1]),
+                        rep.clone(),
+                    );
+                    break;
+                }
+            }
+        }
+    }
+}
+
 pub fn run(args: &Args) -> i32 {
     let started = Instant::now();
     let sessions = args.tier.pick(25_000u64, 800_000);
@@ -499,6 +592,8 @@ pub fn run(args: &Args) -> i32 {
     for p in parallel(args.jobs, total, Evidence::new, |n, ev| {
         if n < long_sessions {
             run_session(seed, 1_000_000 + n, true, ev)
+        } else if n % 16 == 7 {
+            run_reconnect_session(seed, n, ev)
         } else {
             run_session(seed, n, false, ev)
         }
@@ -517,6 +612,7 @@ pub fn run(args: &Args) -> i32 {
             ("requests".into(), args.tier.pick(1_500_000, 50_000_000)),
             ("results_identified_by_unique_payload".into(), args.tier.pick(800_000, 25_000_000)),
             ("txid_wraps_observed".into(), 1),
+            ("reconnect_sessions".into(), args.tier.pick(1_000, 30_000)),
         ],
         min_classes: 20,
     };
